@@ -5,6 +5,7 @@ import (
 	"reflect"
 
 	gcmp "github.com/google/go-cmp/cmp"
+	"github.com/google/go-cmp/cmp/cmpopts"
 )
 
 func Pipe[T any, U any](elem T, f func(T) U) U {
@@ -32,8 +33,16 @@ func Printf1[T any](fmtstr string, arg T) {
 	fmt.Printf(fmtstr, arg)
 }
 
+// Structural equality for every Folang value: records may have lower-case
+// (unexported) fields, and two empty slices are equal however they were produced
+// (slice.New gives an empty slice, Filter/Take/Skip give nil).
+var equalOpts = gcmp.Options{
+	gcmp.Exporter(func(reflect.Type) bool { return true }),
+	cmpopts.EquateEmpty(),
+}
+
 func OpEqual[T any](e1 T, e2 T) bool {
-	return gcmp.Equal(e1, e2)
+	return gcmp.Equal(e1, e2, equalOpts)
 }
 
 func OpNotEqual[T any](e1 T, e2 T) bool {
